@@ -1,4 +1,5 @@
 import Pkgcore.Proofs.C01
+import Pkgcore.Proofs.C01Lex
 /-!
 # C01 — version comparison follows the PMS algorithm and is a total preorder
 
@@ -109,5 +110,25 @@ theorem versionMatch_tilde (negate : Bool) (ver pv : Ver) (rev prev : Rev) :
   refine ⟨by decide, ?_⟩
   simp only [versionMatch, if_true, verCmp_eq_pms _ _ _ _ (Or.inl ⟨rfl, rfl⟩)]
   cases pmsCmp pv none ver none <;> cases negate <;> decide
+
+/-- **lexing**: every valid version string (a rendering of a well-formed lexed version: non-empty digit
+components, optional ASCII letter, suffixes with digit strings — the language of `isvalid_version_re`)
+is split by the model of `split("_")`/`split(".")`/letter extraction/`suffix_regexp` into exactly its parts -/
+theorem lex_render (v : Ver) (h : WFfull v) : lexVer (render v) = some v :=
+  lexVer_render_aux v h
+
+/-- hence the string-level comparison is the PMS algorithm on the parts -/
+theorem verCmpStr_eq_pms (v1 v2 : Ver) (r1 r2 : Rev) (h1 : WFfull v1) (h2 : WFfull v2) (h : RevsOk r1 r2) :
+    verCmpStr (render v1) r1 (render v2) r2 = some (pmsCmp v1 r1 v2 r2) := by
+  simp only [verCmpStr, lex_render v1 h1, lex_render v2 h2, verCmp_eq_pms _ _ _ _ h]
+
+example : WFfull ⟨[['1'], ['0', '2']], some 'b', [(.rc, ['1']), (.p, [])]⟩ ∧
+    render ⟨[['1'], ['0', '2']], some 'b', [(.rc, ['1']), (.p, [])]⟩ = "1.02b_rc1_p".toList := by
+  refine ⟨⟨⟨by simp, ?_⟩, ?_, ?_⟩, by decide⟩
+  · intro c hc
+    simp at hc
+    rcases hc with rfl | rfl <;> exact ⟨by simp, by decide⟩
+  · intro c hc; simp at hc; subst hc; decide
+  · intro x hx; simp at hx; rcases hx with rfl | rfl <;> decide
 
 end Pkgcore.C01
